@@ -131,6 +131,19 @@ def run_impl(case):
             c = pointwise_cm(l2, s2, thr, score_class=case["sc"], equal_class=case["ec"])
             layout_ok = layout_ok and bool(np.array_equal(a, c)) and bool(np.array_equal(b, c))
     excl = bool(np.all(pw.sum(axis=(-1, -2)) == 1)) if pw.size else True
+    # documented defaults: omitting score_class / equal_class means "pos" (whatever the other argument is)
+    defaults_ok = True
+    if pw.size:
+        d1 = pointwise_cm(labels, scores, thr, score_class=case["sc"])
+        e1 = pointwise_cm(labels, scores, thr, score_class=case["sc"], equal_class="pos")
+        d2 = pointwise_cm(labels, scores, thr, equal_class=case["ec"])
+        e2 = pointwise_cm(labels, scores, thr, score_class="pos", equal_class=case["ec"])
+        d3 = pointwise_cm(labels, scores, thr)
+        e3 = pointwise_cm(labels, scores, thr, score_class="pos", equal_class="pos")
+        defaults_ok = bool(np.array_equal(d1, e1) and np.array_equal(d2, e2) and np.array_equal(d3, e3))
+        s_def = Scores(pos, neg, nb_easy_pos=case["ep"], nb_easy_neg=case["en"], score_class=case["sc"])
+        s_exp = Scores(pos, neg, nb_easy_pos=case["ep"], nb_easy_neg=case["en"], score_class=case["sc"], equal_class="pos")
+        defaults_ok = defaults_ok and bool(np.array_equal(s_def.cm(thr).matrix, s_exp.cm(thr).matrix))
     # objects derived from this one (bootstrap samples under every built-in configuration, swap(), the same data as a
     # GroupScores and its samples) are Scores objects too: their cm() must count their own pos / neg arrays
     derived = []
@@ -158,7 +171,7 @@ def run_impl(case):
             derived.append({"what": what, "pos": [enc(float(x)) for x in d.pos], "neg": [enc(float(x)) for x in d.neg],
                             "ep": int(d.nb_easy_pos), "en": int(d.nb_easy_neg), "sc": str(getattr(d.score_class, "value", d.score_class)), "ec": str(getattr(d.equal_class, "value", d.equal_class)),
                             "cm": [[int(v) for v in m.reshape(-1)] for m in d.cm(thr).matrix]})
-    return {"derived": derived, "cm": mats, "rates": rates, "pw_sum": pw_sum, "pw_shape": pw_shape, "pw_exclusive": excl, "cm_is_sorted": raw, "pw_layout_ok": layout_ok}
+    return {"defaults_ok": defaults_ok, "derived": derived, "cm": mats, "rates": rates, "pw_sum": pw_sum, "pw_shape": pw_shape, "pw_exclusive": excl, "cm_is_sorted": raw, "pw_layout_ok": layout_ok}
 
 
 def _scores_term(case):
@@ -233,6 +246,8 @@ def oracle(case, res):
         fails.append(("C01/margins", f"TP+FN / FP+TN depend on the threshold: {sorted(margins)}"))
     if not r["pw_exclusive"]:
         fails.append(("C01/pointwise", "some sample is not in exactly one cell of pointwise_cm"))
+    if not r.get("defaults_ok", True):
+        fails.append(("C01/defaults", "pointwise_cm / Scores with score_class or equal_class omitted differ from the same call with the documented default 'pos' passed explicitly"))
     if not r.get("pw_layout_ok", True):
         fails.append(("C01/pointwise-layout", "pointwise_cm depends on the memory layout (Fortran order / transposed view) of its threshold, label or score arrays"))
     if r["pw_shape"] != [len(pos) + len(neg), len(case["thr"]), 2, 2]:
